@@ -25,6 +25,8 @@ mod k_graph;
 mod facts;
 #[cfg(feature = "k_gen")]
 mod k_resp;
+#[cfg(feature = "k_dflt")]
+mod k_dflt;
 
 pub type OpResult = Result<Value, String>;
 
@@ -45,6 +47,8 @@ fn dispatch(op: &str, input: &mut Value) -> OpResult {
     "graph" | "registry" => k_graph::eval(op, input),
     #[cfg(feature = "k_gen")]
     "interop" => k_resp::eval_interop(op, input),
+    #[cfg(feature = "k_dflt")]
+    "dflt" => k_dflt::eval(op, input),
     _ => Err(format!("unknown-op:{op}")),
   }
 }
